@@ -20,7 +20,7 @@ func init() {
 		ID:    "C03",
 		Level: "exploration",
 		Rule: "cases: corpus files under formatting transforms (identity, CRLF line endings, BOM prefix, tabs->spaces, indentation stripped, trailing whitespace added, blank lines " +
-			"doubled, blank lines removed, whitespace-only blank lines), the non-canonical corpus files as they are, seeded comment/blank-line insertions WITHOUT canonicalisation, and an own-line / block / end-of-line comment placed before every token of the construct snippets in turn. " +
+			"doubled, blank lines removed, whitespace-only blank lines, explicit semicolons, doubled spaces, a //line directive after the package clause with LF and with CRLF line endings), the non-canonical corpus files as they are, seeded comment/blank-line insertions WITHOUT canonicalisation, and an own-line / block / end-of-line comment placed before every token of the construct snippets in turn. " +
 			"Oracle (go/scanner + go/format, independent of dst): output parses; token sequence (kind + literal text; semicolons and optional trailing commas ignored) equals that of " +
 			"gofmt(input); comment sequence (whitespace-insensitive) equals gofmt's, or - where gofmt itself rewrote doc-comment text - equals the input's with the classes gofmt " +
 			"reorders filtered out. distinct_nontrivial = distinct transformed inputs that differ from their gofmt form and contain a comment.",
@@ -30,7 +30,7 @@ func init() {
 			"go/format (go1.23.5) is the reference for token order and comment order",
 			"when gofmt rewrites comment text (doc-comment reformatting) and dst's output matches neither gofmt's nor the input's comments the case is counted inconclusive, not violated",
 		},
-		Required: map[string]int{"transforms": 11},
+		Required: map[string]int{"transforms": 13},
 	})
 }
 
@@ -40,6 +40,17 @@ func c03Transform(name string, src []byte) []byte {
 	s := string(src)
 	switch name {
 	case "identity":
+		return src
+	case "line-directive":
+		// generated-code style: every reported line number after the directive is shifted
+		if ld := c01WithLineDirective(src); ld != nil {
+			return ld
+		}
+		return src
+	case "line-directive+crlf":
+		if ld := c01WithLineDirective(src); ld != nil {
+			return []byte(strings.ReplaceAll(string(ld), "\n", "\r\n"))
+		}
 		return src
 	case "crlf":
 		return []byte(strings.ReplaceAll(s, "\n", "\r\n"))
@@ -96,7 +107,7 @@ func c03Transform(name string, src []byte) []byte {
 	return src
 }
 
-var c03Transforms = []string{"identity", "crlf", "bom", "spaces", "noindent", "trailing-ws", "double-blank", "no-blank", "ws-blank", "semicolons", "double-spaces"}
+var c03Transforms = []string{"identity", "crlf", "bom", "spaces", "noindent", "trailing-ws", "double-blank", "no-blank", "ws-blank", "semicolons", "double-spaces", "line-directive", "line-directive+crlf"}
 
 func stripAll(cs []string) []string {
 	out := make([]string, len(cs))
